@@ -91,8 +91,8 @@ def _sidecar_content(g, level):
         if c == "response":
             cols[c] = {"Description": "lvl %s" % level, "HED": g.pick(["Label/#", "ID/#", "(Age/#, %s)" % g.pick(PLAIN)])}
         else:
-            cols[c] = {"Description": "lvl %s" % level,
-                       "HED": {"a": _ann(g, g.chance(0.15)), "b": _ann(g)}}
+            keys = g.pick([["a", "b"], ["a", "b"], ["a", "c"], ["b"], ["a", "b", "c"]])
+            cols[c] = {"Description": "lvl %s" % level, "HED": {k: _ann(g, g.chance(0.1)) for k in keys}}
     return cols
 
 
@@ -122,7 +122,7 @@ def generate(run_index, seed, tier):
                     t = 0.0
                     for _ in range(g.randint(1, 3)):
                         t += g.pick([0.5, 1.0])
-                        rows.append(["%g" % t, "0.5", g.pick(["a", "b", "a", "n/a", "zzz"]), g.pick(["abc", "7", "n/a"]), g.pick(["a", "b", "n/a"]),
+                        rows.append(["%g" % t, "0.5", g.pick(["a", "b", "a", "c", "n/a", "zzz"]), g.pick(["abc", "7", "n/a"]), g.pick(["a", "b", "n/a"]),
                                      g.pick(["n/a", "n/a", _ann(g, g.chance(0.1))])])
                     files.append({"path": "/".join(d + [name]), "ents": dict(ents), "rows": rows})
     if len(files) > 10:
@@ -178,6 +178,13 @@ def generate(run_index, seed, tier):
         decoys.append({"path": "derivatives/pipe/events.json", "content": {"trial_type": {"HED": {"a": "Redd"}}}})
     if g.chance(0.3):
         decoys.append({"path": "code/events.json", "content": {"stim": {"HED": {"a": "Grren"}}}})
+    if g.chance(0.3) and files:
+        # another suffix that merely ENDS with 'events' is not the events suffix
+        f0 = g.pick(files)
+        decoys.append({"path": f0["path"].replace("_events.tsv", "_physioevents.tsv"), "rows": [["1", "0.5", "a", "x", "a", "Grren"]]})
+        if g.chance(0.5):
+            decoys.append({"path": os.path.dirname(f0["path"]) + "/" + os.path.basename(f0["path"]).replace("_events.tsv", "_xevents.json"),
+                           "content": {"trial_type": {"HED": {"a": "Redd"}}}})
     if g.chance(0.4) and files:
         # excluded directory names below the top level take no part either
         f0 = g.pick(files)
